@@ -441,6 +441,9 @@ def run(ctx):
     r7_bool_values(ctx, prog)
     from rules import c06
     c06.r7_default_privacy(ctx, prog, rule_id='C01.R8')
+    from rules import c09, c08
+    c09.r5_cleanup_target(ctx, prog, rule_id='C01.R9')
+    c08.r1_engine(ctx, prog, rule_id='C01.R10')
 
 
 MUTANTS = [
